@@ -622,9 +622,62 @@ func isZeroLit(e ast.Expr) bool {
 
 // ---- validator ---------------------------------------------------------------------------------
 
+// validatorShape: the visitor ValidateSymbolsArePublic walks the query with, found by what the driver does: the
+// object handed to query.Accept, and the place the driver's result is read from (a field of that object, or a
+// local variable a callback of that object writes).
+type validatorShape struct {
+	drv    *ssa.Function
+	accept ssa.CallInstruction
+	obj    ssa.Value    // the visitor object (pointer)
+	typ    *types.Named // its type
+	errFld *types.Var   // the latch, when it is a field of the visitor
+	cell   *ssa.Alloc   // the latch, when it is a local of the driver written by a callback
+}
+
+func discoverValidator(c *Ctx) *validatorShape {
+	p := c.P
+	drv := p.SSAFunc(p.Func("boltz", "ValidateSymbolsArePublic"))
+	vsh := &validatorShape{drv: drv}
+	for _, call := range callsIn(drv) {
+		cc := call.Common()
+		if cc.IsInvoke() && cc.Method.Name() == "Accept" && len(drv.Params) > 0 && cc.Value == ssa.Value(drv.Params[0]) && len(cc.Args) == 1 {
+			vsh.accept = call
+		}
+	}
+	if vsh.accept == nil {
+		return vsh
+	}
+	mi, ok := vsh.accept.Common().Args[0].(*ssa.MakeInterface)
+	if !ok {
+		return vsh
+	}
+	vsh.obj = mi.X
+	vsh.typ = namedOf(mi.X.Type())
+	for _, r := range returnsOf(drv) {
+		if len(r.Results) != 1 {
+			continue
+		}
+		if f, base := loadedField(r.Results[0]); f != nil && base == vsh.obj {
+			vsh.errFld = f
+		}
+		if ld, isLd := r.Results[0].(*ssa.UnOp); isLd && ld.Op == token.MUL {
+			if al, isAl := ld.X.(*ssa.Alloc); isAl {
+				vsh.cell = al
+			}
+		}
+	}
+	return vsh
+}
+
 func ruleC20Validator(c *Ctx) {
 	p := c.P
-	val := p.Named("boltz", "publicSymbolValidator")
+	vsh := discoverValidator(c)
+	if vsh.typ == nil || (vsh.errFld == nil && vsh.cell == nil) {
+		// not recognisable by what the driver does: the names the rule was written against
+		vsh.typ = p.Named("boltz", "publicSymbolValidator")
+		vsh.errFld = p.Field("boltz", "publicSymbolValidator", "err")
+	}
+	val := vsh.typ
 	// VisitSymbol must be declared on the validator itself, not inherited from DefaultVisitor
 	obj, _, _ := types.LookupFieldOrMethod(types.NewPointer(val), true, p.pkg("boltz").Types, "VisitSymbol")
 	vs, _ := obj.(*types.Func)
@@ -633,9 +686,13 @@ func ruleC20Validator(c *Ctx) {
 	if !own {
 		return
 	}
+	if vsh.errFld == nil && vsh.cell != nil {
+		ruleC20ValidatorCallback(c, vsh, p.SSAFunc(vs))
+		return
+	}
 	fn := p.SSAFunc(vs)
 	c.Analysed(FnName(fn))
-	errFld := p.Field("boltz", "publicSymbolValidator", "err")
+	errFld := vsh.errFld
 	isPublic := p.Method("boltz", "Store", "IsPublicSymbol")
 	_ = isPublic
 	fi := ComputeFacts(fn)
@@ -849,7 +906,7 @@ func ruleC20Validator(c *Ctx) {
 	c.Check(!early, "C20.VALIDATOR", "boltz.publicSymbolValidator.VisitSymbol: always tests", p.Pos(fn.Pos()), "every path tests IsPublicSymbol unless an error is already latched", "a path returns without testing the symbol although no error is latched")
 
 	// driver
-	drv := p.SSAFunc(p.Func("boltz", "ValidateSymbolsArePublic"))
+	drv := vsh.drv
 	c.Analysed(FnName(drv))
 	var accept ssa.CallInstruction
 	for _, call := range callsIn(drv) {
@@ -882,6 +939,13 @@ func ruleC20Validator(c *Ctx) {
 	}
 	c.Check(okDrv, "C20.VALIDATOR", "boltz.ValidateSymbolsArePublic", p.Pos(drv.Pos()), "traverses the query with the validator and returns its latched error", why)
 
+	ruleC20IsPublicSymbol(c)
+	c.Floor("C20.VALIDATOR", 5)
+}
+
+// ruleC20IsPublicSymbol: every true answer of IsPublicSymbol is backed by a lookup in publicSymbols.
+func ruleC20IsPublicSymbol(c *Ctx) {
+	p := c.P
 	// IsPublicSymbol: every returned value is false or comes from a lookup in publicSymbols
 	ips := p.SSAFunc(p.Method("boltz", "BaseStore", "IsPublicSymbol"))
 	c.Analysed(FnName(ips))
@@ -941,6 +1005,153 @@ func ruleC20Validator(c *Ctx) {
 		}
 	}
 	c.Check(okIPS, "C20.VALIDATOR", "boltz.BaseStore.IsPublicSymbol", p.Pos(ips.Pos()), "every true answer is backed by a lookup in publicSymbols", whyIPS)
+}
+
+// ruleC20ValidatorCallback: the validator as a visitor that hands every symbol to a callback made by the driver;
+// the callback tests the symbol and writes the driver's result variable.  Decided the same way as the struct
+// form: the callback is run for (error already recorded?) x (symbol public?) and what it leaves in the result
+// variable is compared with the latch's contract.
+func ruleC20ValidatorCallback(c *Ctx, vsh *validatorShape, vs *ssa.Function) {
+	p := c.P
+	drv := vsh.drv
+	c.Analysed(FnName(vs))
+	c.Analysed(FnName(drv))
+	// (1) VisitSymbol hands its symbol to a function kept in a field of the visitor, on every path
+	var cbFld *types.Var
+	argNo := -1
+	isForward := func(in ssa.Instruction) bool {
+		call, ok := in.(*ssa.Call)
+		if !ok || call.Call.IsInvoke() || call.Call.StaticCallee() != nil {
+			return false
+		}
+		f, base := loadedField(call.Call.Value)
+		if f == nil || base != ssa.Value(vs.Params[0]) {
+			return false
+		}
+		for i, a := range call.Call.Args {
+			if a == ssa.Value(vs.Params[1]) {
+				cbFld, argNo = f, i
+				return true
+			}
+		}
+		return false
+	}
+	forwards := noPathAvoiding(vs, isForward, nil)
+	c.Check(forwards && cbFld != nil, "C20.VALIDATOR", "boltz.publicSymbolValidator.VisitSymbol: always tests", p.Pos(vs.Pos()), "every visited symbol is handed to the visitor's callback", "a path of VisitSymbol returns without handing the symbol to the callback: that symbol is never checked")
+	if cbFld == nil {
+		return
+	}
+	// (2) the callback the driver installs: the one closure stored into that field of the visitor it builds
+	var cb *ssa.Function
+	var mk *ssa.MakeClosure
+	nStores := 0
+	for _, b := range drv.Blocks {
+		for _, in := range b.Instrs {
+			st, ok := in.(*ssa.Store)
+			if !ok {
+				continue
+			}
+			if f, base := fieldOfAddr(st.Addr); !sameVar(f, cbFld) || base != vsh.obj {
+				continue
+			}
+			nStores++
+			v := st.Val
+			if ct, isCT := v.(*ssa.ChangeType); isCT {
+				v = ct.X
+			}
+			if m, isMk := v.(*ssa.MakeClosure); isMk {
+				mk = m
+				cb, _ = m.Fn.(*ssa.Function)
+			}
+		}
+	}
+	if cb == nil || nStores != 1 || argNo >= len(cb.Params) {
+		c.Undecided("C20.VALIDATOR", "boltz.publicSymbolValidator.VisitSymbol: latch", p.Pos(drv.Pos()), "the callback the driver installs in the visitor cannot be identified")
+		return
+	}
+	c.Analysed(FnName(cb))
+	var latch *ssa.FreeVar
+	for i, bnd := range mk.Bindings {
+		if bnd == ssa.Value(vsh.cell) && i < len(cb.FreeVars) {
+			latch = cb.FreeVars[i]
+		}
+	}
+	if latch == nil {
+		c.Bad("C20.VALIDATOR", "boltz.publicSymbolValidator.VisitSymbol: latch", p.Pos(cb.Pos()), "the callback does not write the variable the driver returns: no error is ever reported")
+		return
+	}
+	sym := ssa.Value(cb.Params[argNo])
+	isPublicTest := func(call *ssa.Call) bool {
+		args := call.Call.Args
+		return invokeNamed(call, "IsPublicSymbol") && len(args) > 0 && args[len(args)-1] == sym
+	}
+	decidedAll, good := true, true
+	for _, latched := range []bool{false, true} {
+		for _, public := range []bool{false, true} {
+			asked := 0
+			oracle := func(v ssa.Value) (AV, bool) {
+				if v == ssa.Value(latch) {
+					return AV{Kind: "nonnil", Sym: "alloc:latch"}, true
+				}
+				if call, isCall := v.(*ssa.Call); isCall {
+					if isPublicTest(call) {
+						asked++
+						return avBool(public), true
+					}
+					if cal, _ := calleeOf(call.Common()); cal != nil && isErrorCtor(cal) {
+						return AV{Kind: "nonnil", Sym: "newerr"}, true
+					}
+				}
+				if u, isU := v.(*ssa.UnOp); isU && u.Op == token.MUL && u.X == ssa.Value(latch) {
+					if latched {
+						return AV{Kind: "nonnil", Sym: "olderr"}, true
+					}
+					return AV{Kind: "nil"}, true
+				}
+				return AV{}, false
+			}
+			_, mem, derr := DecideMem(cb, oracle)
+			if derr != "" {
+				decidedAll = false
+				continue
+			}
+			stored, wrote := mem["alatch"]
+			switch {
+			case latched:
+				if wrote && stored.Sym != "olderr" {
+					good = false
+				}
+			case public:
+				if wrote && stored.Kind != "nil" {
+					good = false
+				}
+			default:
+				if !wrote || stored.Kind != "nonnil" || asked == 0 {
+					good = false
+				}
+			}
+		}
+	}
+	if !decidedAll {
+		c.Undecided("C20.VALIDATOR", "boltz.publicSymbolValidator.VisitSymbol: latch", p.Pos(cb.Pos()), "the callback could not be evaluated for every combination of (error recorded, symbol public)")
+	} else {
+		c.Check(good, "C20.VALIDATOR", "boltz.publicSymbolValidator.VisitSymbol: latch", p.Pos(cb.Pos()),
+			"records an error exactly when IsPublicSymbol(symbol) is false, keeping the first error", "the validator does not record an error under !IsPublicSymbol(symbol) && err == nil")
+	}
+	// (3) the driver: the walk happens before every return, and the result is the variable the callback writes
+	okDrv, why := true, ""
+	ri := reachWithout(drv, func(in ssa.Instruction) bool { return in == ssa.Instruction(vsh.accept) })
+	for _, r := range returnsOf(drv) {
+		if ri.Reaches(r) {
+			okDrv, why = false, "a return is reachable without traversing the query"
+		}
+		ld, isLd := r.Results[0].(*ssa.UnOp)
+		if !isLd || ld.Op != token.MUL || ld.X != ssa.Value(vsh.cell) {
+			okDrv, why = false, "the result is not the validator's latched error"
+		}
+	}
+	c.Check(okDrv, "C20.VALIDATOR", "boltz.ValidateSymbolsArePublic", p.Pos(drv.Pos()), "traverses the query with the validator and returns its latched error", why)
+	ruleC20IsPublicSymbol(c)
 	c.Floor("C20.VALIDATOR", 5)
 }
 
